@@ -183,10 +183,10 @@ def combine1fiber(inloglam, objflux, newloglam, objivar=None, verbose=False,
         # are set.
         #
         warn('No good points!', Pydlspec2dUserWarning)
-        bitval = sdss_flagval('SPPIXMASK', 'NODATA')
+        bitval = int(sdss_flagval('SPPIXMASK', 'NODATA'))
         if 'finalmask' in kwargs:
-            bitval |= (sdss_flagval('SPPIXMASK', 'NOPLUG') *
-                       (kwargs['finalmask'][0] & sdss_flagval('SPPIXMASK', 'NODATA')))
+            bitval |= (int(sdss_flagval('SPPIXMASK', 'NOPLUG')) *
+                       (int(kwargs['finalmask'][0]) & int(sdss_flagval('SPPIXMASK', 'NODATA'))))
         andmask = andmask | bitval
         ormask = ormask | bitval
         return (newflux, newivar)
@@ -278,7 +278,7 @@ def combine1fiber(inloglam, objflux, newloglam, objivar=None, verbose=False,
                         log.debug('Replaced {0:d} pixels in objivar.'.format(len(ss[ireplace])))
                     if 'finalmask' in kwargs:
                         kwargs['finalmask'][ss[ireplace]] = (kwargs['finalmask'][ss[ireplace]] |
-                                                             sdss_flagval('SPPIXMASK', 'COMBINEREJ'))
+                                                             int(sdss_flagval('SPPIXMASK', 'COMBINEREJ')))
             fullcombmask[ss] = bmask
         #
         # Restore objivar
@@ -378,8 +378,8 @@ def combine1fiber(inloglam, objflux, newloglam, objivar=None, verbose=False,
         maxglam = newloglam[goodpts].max()
         ibad = ((newloglam < minglam) | (newloglam > maxglam))
         if ibad.any():
-            ormask[ibad] |= sdss_flagval('SPPIXMASK', 'NODATA')
-            andmask[ibad] |= sdss_flagval('SPPIXMASK', 'NODATA')
+            ormask[ibad] |= int(sdss_flagval('SPPIXMASK', 'NODATA'))
+            andmask[ibad] |= int(sdss_flagval('SPPIXMASK', 'NODATA'))
     #
     # Replace values of -1 in the andmask with 0.
     #
